@@ -183,8 +183,10 @@ package ast
 //@   requires s != nil
 //@   requires forall(i, 0 <= i && i < len(nodes) ==> nodes[i] != nil && *nodes[i] != nil)
 //@   modifies *
-//@   ensures[slots-stay-usable] result == nil ==> forall(i, 0 <= i && i < len(nodes) ==> *nodes[i] != nil)
+//@   ensures[slots-stay-usable] forall(i, 0 <= i && i < len(nodes) ==> *nodes[i] != nil)
+//@   ensures[setfn-compares] result == nil ==> forall(i, 0 <= i && i < len(nodes) && istype(*nodes[i], *SetFunctionNode) ==> as(*nodes[i], *SetFunctionNode).setFunction <= SetFunctionAnyOf)
 //@   invariant 1: forall(i, 0 <= i && i < len(nodes) ==> nodes[i] != nil && *nodes[i] != nil)
+//@   invariant 1: forall(i, 0 <= i && i <= rangeindex && istype(*nodes[i], *SetFunctionNode) ==> as(*nodes[i], *SetFunctionNode).setFunction <= SetFunctionAnyOf)
 //@ func transformBools
 //@   props C10
 //@   requires s != nil
@@ -192,14 +194,22 @@ package ast
 //@   modifies *
 //@   ensures[slots-stay-usable] result == nil ==> forall(i, 0 <= i && i < len(nodes) ==> *nodes[i] != nil)
 //@   invariant 1: forall(i, 0 <= i && i < len(nodes) ==> nodes[i] != nil && *nodes[i] != nil)
+// What every typing step guarantees: a result unless it failed; a symbol stays a symbol; a set-function
+// wrapper survives only for the comparing functions anyOf/allOf (count/isEmpty become nodes of their own).
 //@ func (TypeTransformable).TypeTransform
+//@   props C10
+//@   impl all
 //@   requires s != nil
 //@   modifies *
-//@   ensures result1 == nil ==> result0 != nil
+//@   ensures[result-or-error] result1 == nil ==> result0 != nil
+//@   ensures[symbol-stays-symbol] result1 == nil && istype(self, SymbolNode) ==> istype(result0, SymbolNode)
+//@   ensures[setfn-compares] result1 == nil && istype(result0, *SetFunctionNode) ==> as(result0, *SetFunctionNode).setFunction <= SetFunctionAnyOf
 //@ func (BoolTypeTransformable).TypeTransformBool
+//@   props C10
+//@   impl all
 //@   requires s != nil
 //@   modifies *
-//@   ensures result1 == nil ==> result0 != nil
+//@   ensures[result-or-error] result1 == nil ==> result0 != nil
 //@ func PostProcess
 //@   props C10
 //@   requires symbolTypes != nil && node != nil && *node != nil
